@@ -1,4 +1,4 @@
-import StepupModel.Lemmas.DisciplineReset
+import StepupModel.Lemmas.DisciplineReattach
 /-!
 # The flag discipline of `_update_meta_after` over requests and histories
 
@@ -379,6 +379,31 @@ theorem reachable_updateMetaAfter_correct (cfg : KConfig) (h : List (KConfig × 
     ∃ s', (KState.init.run h).updateMetaAfter cfg = .ok s' ∧ AfterConsistent s' cfg ∧
       (∀ n ∈ s'.nodes, n.key.kind = .step → n.checkAfter = false) ∧ AfterFrame (KState.init.run h) s' :=
   updateMetaAfter_reachable_correct_weak h cfg (reachable_ds cfg h hh).1
+
+
+/-! ## Histories with uncovered requests: the relative form -/
+
+/-- Like `HistOK`, but a request outside the covered classes is admitted when the discipline and the
+structural invariant are *known* to hold after it: the open obligation is reduced to the declaring
+requests (`define`, `amend`, `static`, `tree`, `declStatic`) and `delete_detached`. -/
+def HistRel (cfg : KConfig) : KState → List (KConfig × Req) → Prop
+  | _, [] => True
+  | s, cr :: rest =>
+    (cr.1.targets = cfg.targets ∧ cr.1.targetDirs = cfg.targetDirs ∧ (ReqOK s cr.2 ∨ DS cfg (s.step cr.1 cr.2))) ∧
+      HistRel cfg (s.step cr.1 cr.2) rest
+
+theorem run_ds_relative (cfg : KConfig) (h : List (KConfig × Req)) (s : KState) (hp : DS cfg s)
+    (hh : HistRel cfg s h) : DS cfg (s.run h) := by
+  unfold KState.run
+  induction h generalizing s with
+  | nil => exact hp
+  | cons x xs ih =>
+    simp only [List.foldl_cons]
+    obtain ⟨⟨ht, htd, hr⟩, hrest⟩ := hh
+    refine ih _ ?_ hrest
+    rcases hr with hr | hr
+    · exact ds_cfg_congr ht.symm htd.symm (step_ds x.1 x.2 s hr (ds_cfg_congr ht htd hp))
+    · exact hr
 
 /-! ## The side condition on `detach` is needed -/
 
